@@ -6,8 +6,9 @@ reset by the virtual `topologyHasChanged_()` (:329), which GlobalGraph calls fro
 primitive that modifies the structure (GlobalGraph.cpp: linkInNodeStructure_,
 linkInEdgeStructure_, unlinkIn*, createNode, switchNodes, deleteNode, makeDirected,
 makeUndirected, setRoot); the model resets it exactly when one of them has run.
-Recursive traversals of the C++ take fuel here (node count + 2); outcome `fuel` is distinct
-from every C++ outcome and would show as a correspondence break.
+Recursive traversals of the C++ take fuel here (node count + 2); outcome `fuel` stands for a
+traversal that does not return (`BppProofs/Props/C15Fuel.lean`: it is never reached on a valid
+tree, and the answer does not depend on the fuel beyond that bound).
 Line numbers: the library worktree with its `fix:` commits.
 -/
 namespace Bpp.Graph
@@ -103,16 +104,18 @@ def edgeToFather (g : G) (n : Nat) : Option Nat := (father g n).bind (fun f => g
 def isLeafT (g : G) (n : Nat) : Option Bool :=
   (RowQ.nbOut (g.rowOf n)).map (fun k => if g.directed then decide (k = 0) else decide (k ≤ 1))
 
-/-- `fillListOfLeaves_` (:278) -/
+/-- `fillListOfLeaves_` (:286): the sons are read first (throws for an absent node), then `isLeaf` -/
 def leavesUnder (g : G) : Nat → Nat → List Nat → TRes (List Nat)
   | 0, _, _ => .fuel
   | fuel + 1, start, found =>
     match g.outNeighbors start with
     | none => .exc
     | some sons =>
-      if sons.length > 1 then
+      match isLeafT g start with
+      | some false =>
         sons.foldl (fun acc s => match acc with | .ok f => leavesUnder g fuel s f | r => r) (.ok found)
-      else .ok (found ++ [start])
+      | some true => .ok (found ++ [start])
+      | none => .exc
 
 /-- `fillSubtreeMetNodes_` (:553) -/
 def subtreeNodes (g : G) : Nat → Nat → List Nat → TRes (List Nat)
@@ -183,44 +186,54 @@ def edgePath (g : G) (a b : Nat) : TRes (List Nat) :=
     | none => .exc
   | r => r
 
-/-- one round of `MRCA` (:607-619): from the current counters (ascending node id) to the fathers';
-`inl` = the answer, `inr` = the next counters -/
-def mrcaRound (g : G) (nb : Nat) : List (Nat × Nat) → List (Nat × Nat) → TRes (Nat ⊕ List (Nat × Nat))
-  | [], fathers => .ok (.inr fathers)
-  | (s, c) :: rest, fathers =>
-    match hasFather g s with
-    | none => .exc
-    | some hf =>
-      let hereO : Option Nat := if hf then father g s else some s
-      match hereO with
+/-- the second loop of `MRCA` (:640-652): climb from `here` until the line of the first node is
+joined; the rank of the joining point in that line (`rank.find(here)`).  `exc` = hasFather /
+getFatherOfNode threw, or a father-less node outside the line was reached ("MRCA not found") -/
+def joinRank (g : G) (line : List Nat) : Nat → Nat → TRes Nat
+  | 0, _ => .fuel
+  | fuel + 1, here =>
+    if line.contains here then .ok (line.idxOf here)
+    else
+      match hasFather g here with
       | none => .exc
-      | some here =>
-        let cur := match AL.find here fathers with | some k => k + c | none => c
-        let fathers' := AL.set here cur fathers
-        if cur = nb then .ok (.inl here) else mrcaRound g nb rest fathers'
+      | some false => .exc
+      | some true =>
+        match father g here with
+        | none => .exc
+        | some f => joinRank g line fuel f
 
-/-- `MRCA` (:581) for a non-empty list; `exc` also stands for "MRCA not found" (:622) -/
+/-- one turn of the loop over the other nodes (:640): the highest joining point so far -/
+def mrcaStep (g : G) (line : List Nat) (fuel : Nat) (acc : TRes Nat) (n : Nat) : TRes Nat :=
+  match acc with
+  | .ok m =>
+    match joinRank g line fuel n with
+    | .ok k => .ok (max m k)
+    | r => r
+  | r => r
+
+/-- `MRCA` (:610): the ancestors of the first node (`climb`), then the highest point where the
+climbs from the other nodes join that line.  The empty list (`throw getRoot()`, a node id and not
+an exception) is not exercised; `exc` stands for it as well -/
 def mrca (g : G) (nodes : List Nat) : TRes Nat :=
   if !g.directed then .exc
   else
     match nodes with
     | [] => .exc
     | [x] => .ok x
-    | _ =>
-      let nb := nodes.length
-      let sons0 := nodes.foldl (fun m n => AL.set n 1 m) []
-      let rec loop : Nat → List (Nat × Nat) → TRes Nat
-        | 0, _ => .fuel
-        | fuel + 1, sons =>
-          if sons.length > 1 then
-            match mrcaRound g nb sons [] with
-            | .ok (.inl r) => .ok r
-            | .ok (.inr f) => loop fuel f
-            | .exc => .exc
-            | .fuel => .fuel
-            | .ub => .ub
-          else .exc
-      loop (g.nodes.length + 2) sons0
+    | x :: rest =>
+      match climb g (g.nodes.length + 2) x [] with
+      | .ok line =>
+        match rest.foldl (mrcaStep g line (g.nodes.length + 2)) (.ok 0) with
+        | .ok m =>
+          match line[m]? with
+          | some a => .ok a
+          | none => .ub
+        | .exc => .exc
+        | .fuel => .fuel
+        | .ub => .ub
+      | .exc => .exc
+      | .fuel => .fuel
+      | .ub => .ub
 
 /-! ### mutators of TreeGraphImpl -/
 
@@ -276,16 +289,51 @@ def propagate (fuel : Nat) (t : T) (n : Nat) : TRes (GOut Unit × T) :=
         | .exc => .exc
         | .ub => .ub
 
-/-- `rootAt` (:333) -/
+/-- `fillRelationsFrom_` (:379): the relations of an unrooted tree as (father, son) pairs met from
+`node`, not walking back to `origin` -/
+def relationsFrom (g : G) : Nat → Nat → Nat → List (Nat × Nat) → TRes (List (Nat × Nat))
+  | 0, _, _, _ => .fuel
+  | fuel + 1, node, origin, rel =>
+    match g.outNeighbors node with
+    | none => .exc
+    | some nbs =>
+      nbs.foldl (fun acc nb =>
+        match acc with
+        | .ok r => if nb = origin then .ok r else relationsFrom g fuel nb node (r ++ [(node, nb)])
+        | e => e) (.ok rel)
+
+/-- one turn of the loop of `rootAt` (:369-373): a relation that `makeDirected` kept towards the new
+root (`getTop(getAnyEdge(father, son)) != father`) is switched -/
+def orientStep (r : GOut Unit × T) (p : Nat × Nat) : GOut Unit × T :=
+  andThen r (fun _ t =>
+    match t.g.getAnyEdge p.1 p.2 with
+    | none => (.exc t.g, t)
+    | some e =>
+      match t.g.getNodes e with
+      | none => (.exc t.g, t)
+      | some (top, _) => if top ≠ p.1 then t.lift (t.g.switchNodes p.1 p.2) else (.ok () t.g, t))
+
+/-- `rootAt` (:346): a rooted tree is re-rooted by turning round the father chain of the new root;
+an unrooted one is made directed and the relations listed from the new root are oriented -/
 def rootAt (t : T) (newRoot : Nat) : TRes (GOut Unit × T) :=
   let (v, t0) := t.isValid
   match v with
   | .ok true =>
     if !t0.g.hasNode newRoot then .ok (.exc t0.g, t0) else
-    let t1 := t0.makeDirected
-    match (t1.setRoot newRoot) with
-    | (.ok _ _, t2) => propagate (t2.g.nodes.length + 2) t2 newRoot
-    | (.exc g, t2) => .ok (.exc g, t2)
+    if t0.g.directed then
+      match (t0.setRoot newRoot) with
+      | (.ok _ _, t2) => propagate (t2.g.nodes.length + 2) t2 newRoot
+      | (.exc g, t2) => .ok (.exc g, t2)
+    else
+      match relationsFrom t0.g (t0.g.nodes.length + 2) newRoot newRoot [] with
+      | .ok rel =>
+        let t1 := t0.makeDirected
+        match (t1.setRoot newRoot) with
+        | (.ok _ g2, t2) => .ok (rel.foldl orientStep (.ok () g2, t2))
+        | (.exc g, t2) => .ok (.exc g, t2)
+      | .exc => .ok (.exc t0.g, t0)
+      | .fuel => .fuel
+      | .ub => .ub
   | .ok false => .ok (.exc t0.g, t0)
   | .exc => .ok (.exc t0.g, t0)
   | .fuel => .fuel
@@ -305,6 +353,48 @@ def unRoot (t : T) (join : Bool) : GOut Unit × T :=
     else (.ok () t.g, t)
   andThen step1 (fun _ t1 => t1.makeUndirected)
 
+/-- `getSubtreeNodes` (:585) / `getSubtreeEdges` (:596): `mustBeValid_` (may write the cache), then
+`mustBeRooted_`, then the recursion -/
+def getSubtree (edges : Bool) (t : T) (n : Nat) : TRes (List Nat) × T :=
+  let (v, t') := t.isValid
+  match v with
+  | .ok true =>
+    if !t'.g.directed then (.exc, t')
+    else ((if edges then subtreeEdges t'.g (t'.g.nodes.length + 2) n [] else subtreeNodes t'.g (t'.g.nodes.length + 2) n []), t')
+  | .ok false => (.exc, t')
+  | .exc => (.exc, t')
+  | .fuel => (.fuel, t')
+  | .ub => (.ub, t')
+
+/-- `removeSons` (:495): `removeSon` for a snapshot of the sons -/
+def removeSons (t : T) (n : Nat) : GOut (List Nat) × T :=
+  match t.g.outNeighbors n with
+  | none => (.exc t.g, t)
+  | some sons =>
+    let r := sons.foldl (fun acc s => andThen acc (fun _ t' => t'.removeSon n s)) (.ok () t.g, t)
+    match r.1 with
+    | .ok _ g => (.ok sons g, r.2)
+    | .exc g => (.exc g, r.2)
+
+def linkE (t : T) (a b e : Nat) := t.lift (t.g.linkE a b e)
+
+/-- `setFather(node, father, edgeId)` (:410) -/
+def setFatherE (t : T) (n f e : Nat) : GOut Unit × T :=
+  if !t.g.hasNode f then (.exc t.g, t) else
+  match hasFather t.g n with
+  | none => (.exc t.g, t)
+  | some hf =>
+    let step1 : GOut Unit × T :=
+      if hf then
+        match father t.g n with
+        | none => (.exc t.g, t)
+        | some old => unit (t.unlink old n)
+      else (.ok () t.g, t)
+    touch (andThen step1 (fun _ t1 => t1.linkE f n e))
+
+/-- `addSon(node, son, edgeId)` (:429) -/
+def addSonE (t : T) (n s e : Nat) : GOut Unit × T := touch (t.linkE n s e)
+
 /-! ### histories -/
 
 end T
@@ -313,8 +403,10 @@ inductive TOp where
   | createNode | link (a b : Nat) | unlink (a b : Nat) | deleteNode (n : Nat) | setRoot (n : Nat)
   | makeDirected | makeUndirected
   | setFather (n f : Nat) | addSon (n s : Nat) | removeSon (n s : Nat)
+  | setFatherE (n f e : Nat) | addSonE (n s e : Nat) | removeSons (n : Nat)
   | rootAt (n : Nat) | unRoot (join : Bool)
   | isValid                               -- the query that writes the cache
+  | getSubtree (edges : Bool) (n : Nat)   -- writes the cache as well (`mustBeValid_`)
 deriving Repr
 
 namespace T
@@ -330,9 +422,13 @@ def step (t : T) : TOp → T
   | .setFather n f => (t.setFather n f).2
   | .addSon n s => (t.addSon n s).2
   | .removeSon n s => (t.removeSon n s).2
+  | .setFatherE n f e => (t.setFatherE n f e).2
+  | .addSonE n s e => (t.addSonE n s e).2
+  | .removeSons n => (t.removeSons n).2
   | .rootAt n => match t.rootAt n with | .ok r => r.2 | _ => t
   | .unRoot j => (t.unRoot j).2
   | .isValid => t.isValid.2
+  | .getSubtree e n => (t.getSubtree e n).2
 
 def run (t : T) (ops : List TOp) : T := ops.foldl step t
 
